@@ -50,3 +50,16 @@ package db
 //@   props C04
 //@   requires sr != nil
 //@   requires forall i int :: 0 <= i && i < len(opts) ==> opts[i] != nil
+
+// ---- C01 / C02: the chunk handed out for a file offset (DB store) ----
+// Offset, size and digest come from one entry of the file's chunk table, and over a table that tiles the file from 0
+// (what readChunks establishes) that entry contains the offset.
+//@ func (fr *file) ChunkEntryForOffset
+//@   props C01,C02
+//@   arith math
+//@   requires forall k int :: 0 <= k && k < len(fr.ents) ==> fr.ents[k].chunkSize > 0 && (k + 1 < len(fr.ents) ==> fr.ents[k+1].chunkOffset == fr.ents[k].chunkOffset + fr.ents[k].chunkSize)
+//@   requires len(fr.ents) > 0 ==> fr.ents[0].chunkOffset == 0
+//@   modifies nothing
+//@   ensures[C01,C02] ok ==> 0 <= i && i < len(fr.ents) && off == fr.ents[i].chunkOffset && size == fr.ents[i].chunkSize && dgst == fr.ents[i].chunkDigest
+//@   ensures[C02] ok && offset >= 0 ==> off <= offset && offset < off + size
+//@   ensures[C02] !ok ==> off == 0 && size == 0 && dgst == ""
